@@ -273,6 +273,11 @@ class Concretiser:
                 cur += len(pad) + nl
             if target - cur > nl:
                 lines.append("q" * (target - cur - nl))
+        if k == "big" and target is not None and rng.random() < 0.25:
+            # the same excess as empty lines AHEAD of the message (a reader that skips them must still count them)
+            small = [x for x in lines if not (x.startswith("p" * 900) or x.startswith("q") or x.startswith("a" * 50))]
+            cur = sum(len(x) + 1 for x in small)
+            lines = [""] * max(1, target - cur) + small
         data = ("\r\n".join(lines) + "\r\n").encode("latin-1")
         abs_["size"] = len(canon(data)) + 1 if k == "big" else len(data)
         abs_["bodyhash"] = bodyhash(data)
